@@ -86,6 +86,8 @@ func valueOf(style string, j int) string {
 		return []string{"bx", "b", "bxy", "c", "bx" + longTail, "b" + longTail}[j%6]
 	case "concatAB":
 		return []string{"x", "", "xy", "c", "x" + longTail, longTail}[j%6]
+	case "nulprefix":
+		return []string{"x", "x\x00a", "", "\x00", "x\x00", "y"}[j%6]
 	case "eqsign": // values and column names that make "column=value" style keys ambiguous
 		return []string{"v", "=v", "k=v", "", "v="}[j%5]
 	case "long":
@@ -154,7 +156,7 @@ var oddNames = []string{"", " ", "a b", "ü", "\xff\x00x"[0:1], "a=b", "\"", "0c
 func genDataSpecUTF8(r *Rng, maxRows int) *DataSpec {
 	d := genDataSpec(r, maxRows, true)
 	for i := range d.Cols {
-		if d.Cols[i].Style == "binary" || d.Cols[i].Style == "nulval" {
+		if d.Cols[i].Style == "binary" || d.Cols[i].Style == "nulval" || d.Cols[i].Style == "nulprefix" {
 			d.Cols[i].Style = "utf8"
 		}
 	}
@@ -198,7 +200,7 @@ func genDataSpecN(r *Rng, n int, identOnly bool) *DataSpec {
 		if r.Chance(1, 3) {
 			c.Missing = Pick(r, []int{5, 30, 70, 100})
 		}
-		c.Style = Pick(r, []string{"ascii", "ascii", "ascii", "empty", "utf8", "binary", "nulval", "quote", "long"})
+		c.Style = Pick(r, []string{"ascii", "ascii", "ascii", "empty", "utf8", "binary", "nulval", "quote", "long", "nulprefix"})
 		d.Cols = append(d.Cols, c)
 	}
 	if r.Chance(1, 4) {
@@ -310,10 +312,29 @@ func genGroupBy(r *Rng, p *leafPool, allowUnknown bool) []string {
 	var gb []string
 	for i := 0; i < n; i++ {
 		if len(p.cols) == 0 || (allowUnknown && r.Chance(1, 30)) {
-			gb = append(gb, hx("nosuchcol"))
+			name := "nosuchcol"
+			if len(p.cols) > 0 && r.Chance(1, 2) {
+				// an existing name in another letter case is a different, unknown column
+				c := Pick(r, p.cols)
+				if up := strings.ToUpper(c); up != c && !p.has(up) {
+					name = up
+				} else if lo := strings.ToLower(c); lo != c && !p.has(lo) {
+					name = lo
+				}
+			}
+			gb = append(gb, hx(name))
 			continue
 		}
 		gb = append(gb, hx(Pick(r, p.cols)))
 	}
 	return gb
+}
+
+func (p *leafPool) has(c string) bool {
+	for _, x := range p.cols {
+		if x == c {
+			return true
+		}
+	}
+	return false
 }
